@@ -548,6 +548,9 @@ func (x *Exec) execTypeAssert(s *State, in *ssa.TypeAssert) {
 		if toIface {
 			if bv, isBoxed := v.(BoxedVal); isBoxed {
 				okT = smt.BoolC(types.Implements(bv.Type, at.Underlying().(*types.Interface)))
+			} else if si, ok := in.X.Type().Underlying().(*types.Interface); ok && types.Implements(si, at.Underlying().(*types.Interface)) {
+				// the static interface type already guarantees the methods: only nil can fail
+				okT = smt.Neq(it, IfaceNil)
 			} else {
 				okT = smt.App("implements$"+shortTypeName(at), smt.Bool, TypeOf(it))
 				okT = smt.And(okT, smt.Neq(it, IfaceNil))
